@@ -90,3 +90,164 @@ def py_mod(a, b, signed):
         return z3.URem(a, b)
     r = z3.SRem(a, b)
     return z3.If(z3.And(r != 0, (r < 0) != (b < 0)), r + b, r)
+
+
+# ---- overflowcheck expression family (C04) -------------------------------------------------------------
+class Expr:
+    """tiny expression AST over C-integer variables: ('var', name) | ('const', v) | (op, l, r) | ('neg', x)"""
+
+    def __init__(self, node):
+        self.node = node
+
+    def src(self, cty):
+        return _src(self.node, cty)
+
+    def vars(self):
+        out = []
+        _vars(self.node, out)
+        return out
+
+
+def _src(n, cty):
+    k = n[0]
+    if k == 'var':
+        return n[1]
+    if k == 'const':
+        return '(<%s>%d)' % (cty, n[1]) if n[1] >= 0 else '(<%s>(%d))' % (cty, n[1])
+    if k == 'lit':
+        return '%d' % n[1]
+    if k == 'neg':
+        return '(-%s)' % _src(n[1], cty)
+    return '(%s %s %s)' % (_src(n[1], cty), k, _src(n[2], cty))
+
+
+def _vars(n, out):
+    if n[0] == 'var':
+        if n[1] not in out:
+            out.append(n[1])
+    elif n[0] in ('const', 'lit'):
+        pass
+    elif n[0] == 'neg':
+        _vars(n[1], out)
+    else:
+        _vars(n[1], out)
+        _vars(n[2], out)
+
+
+V = lambda x: ('var', x)
+C = lambda v: ('const', v)
+EXPRS = [
+    ('add', ('+', V('a'), V('b'))), ('sub', ('-', V('a'), V('b'))), ('mul', ('*', V('a'), V('b'))),
+    ('shl', ('<<', V('a'), V('b'))), ('neg', ('neg', V('a'))), ('fdiv', ('//', V('a'), V('b'))),
+    ('addc', ('+', V('a'), C(1))), ('subc', ('-', V('a'), C(1))), ('mulc7', ('*', V('a'), C(7))), ('mulcm1', ('*', V('a'), C(-1))),
+    ('cmul', ('*', C(3), V('a'))), ('shlc', ('<<', V('a'), C(3))),
+    ('n1', ('-', ('+', ('*', V('a'), V('b')), ('*', V('c'), V('d'))), V('e'))),
+    ('n2', ('<<', ('*', ('+', V('a'), V('b')), ('-', V('c'), V('d'))), V('e'))),
+    ('n3', ('+', ('*', V('a'), V('b')), V('c'))),
+    ('n4', ('-', V('a'), ('*', V('b'), ('+', V('c'), C(1))))),
+    ('n5', ('*', ('neg', V('a')), V('b'))),
+    ('n6', ('+', ('//', V('a'), V('b')), V('c'))),
+]
+
+
+class OvKernel:
+    def __init__(self, name, tname, ename, expr, fold, src):
+        self.name, self.tname, self.ename, self.expr, self.fold, self.src = name, tname, ename, expr, fold, src
+
+
+def overflow_family(types=('int', 'uint', 'long', 'ulong', 'longlong', 'short', 'ushort'), exprs=None, folds=(True, False)):
+    lines = ['# cython: language_level=3', 'cimport cython', '']
+    ks = []
+    for tname in types:
+        cty, bits, signed = TYPEINFO[tname]
+        W, ps = promoted(bits, signed)
+        rty = cty if bits >= 32 else 'int'          # C result type of the arithmetic after promotion
+        for ename, node in EXPRS:
+            if exprs and ename not in exprs:
+                continue
+            if not signed and ename in ('neg', 'mulcm1', 'n5'):
+                continue
+            e = Expr(node)
+            vs = e.vars()
+            for fold in folds:
+                if not fold and not ename.startswith('n'):
+                    continue            # fold only matters for nested expressions
+                name = 'ov_%s_%s%s' % (ename, tname, '' if fold else '_nofold')
+                src = ['@cython.overflowcheck(True)']
+                if not fold:
+                    src.append('@cython.overflowcheck.fold(False)')
+                src.append('cdef int %s(%s, %s* out) except -1:' % (name, ', '.join('%s %s' % (cty, v) for v in vs), rty))
+                src.append('    out[0] = %s' % e.src(cty))
+                src.append('    return 0')
+                src.append('def py_%s(%s):' % (name, ', '.join(vs)))
+                src.append('    cdef %s r = 0' % rty)
+                src.append('    %s(%s, &r)' % (name, ', '.join(vs)))
+                src.append('    return r')
+                src.append('')
+                lines += src
+                ks.append(OvKernel(name, tname, ename, e, fold, '\n'.join(src)))
+    return '\n'.join(lines), ks
+
+
+def spec_eval(node, env, W, signed):
+    """reference semantics with SMT-LIB overflow predicates: returns (value at W bits, overflowed Bool, zero-division Bool,
+    negative-shift Bool).  Under NOT overflowed the W-bit value is the exact mathematical value."""
+    k = node[0]
+    F = z3.BoolVal(False)
+    if k == 'var':
+        return env[node[1]], F, F
+    if k in ('const', 'lit'):
+        return z3.BitVecVal(node[1], W), F, F
+    if k == 'neg':
+        x, o, z = spec_eval(node[1], env, W, signed)
+        ov = (x == z3.BitVecVal(1 << (W - 1), W)) if signed else (x != 0)
+        return -x, z3.Or(o, ov), z
+    x, o1, z1 = spec_eval(node[1], env, W, signed)
+    y, o2, z2 = spec_eval(node[2], env, W, signed)
+    o, zd = z3.Or(o1, o2), z3.Or(z1, z2)
+    if k == '+':
+        ok = z3.And(z3.BVAddNoOverflow(x, y, True), z3.BVAddNoUnderflow(x, y)) if signed else z3.BVAddNoOverflow(x, y, False)
+        return x + y, z3.Or(o, z3.Not(ok)), zd
+    if k == '-':
+        ok = z3.And(z3.BVSubNoOverflow(x, y), z3.BVSubNoUnderflow(x, y, True)) if signed else z3.UGE(x, y)
+        return x - y, z3.Or(o, z3.Not(ok)), zd
+    if k == '*':
+        from ..cir.symex import mul_fits, mul_wrapped
+        ok = mul_fits(x, y, signed)
+        return mul_wrapped(x, y, signed), z3.Or(o, z3.Not(ok)), zd
+    if k == '<<':
+        # exact x * 2**y representable?  (y < 0 has no exact result at all: must raise)
+        inrange = z3.And(y >= 0, y < W) if signed else z3.ULT(y, W)
+        sh = x << y
+        back = (sh >> y) == x if signed else z3.LShR(sh, y) == x
+        ok = z3.Or(z3.And(inrange, back), z3.And(x == 0, (y >= 0) if signed else z3.BoolVal(True)))
+        return sh, z3.Or(o, z3.Not(ok)), zd
+    if k == '//':
+        ov = z3.And(x == z3.BitVecVal(1 << (W - 1), W), y == z3.BitVecVal(-1, W)) if signed else F
+        return py_floordiv(x, y, signed), z3.Or(o, ov), z3.Or(zd, y == 0)
+    raise ValueError(k)
+
+
+def known_preds(node, env, W, signed):
+    """z3 predicates (over the kernel inputs) describing the known findings of DESIGN §5 for this expression"""
+    preds = {}
+    MIN = z3.BitVecVal(1 << (W - 1), W)
+
+    def walk(n):
+        k = n[0]
+        if k in ('var', 'const', 'lit'):
+            return
+        if k == 'neg':
+            x, _, _ = spec_eval(n[1], env, W, signed)
+            if signed:
+                preds.setdefault('F10-unary-neg-min-unchecked', []).append(x == MIN)
+            walk(n[1])
+            return
+        if k == '//' and signed and W != 64:
+            x, _, _ = spec_eval(n[1], env, W, signed)
+            y, _, _ = spec_eval(n[2], env, W, signed)
+            preds.setdefault('F2-min-div-minus-one-narrow-types', []).append(z3.And(x == MIN, y == z3.BitVecVal(-1, W)))
+        walk(n[1])
+        walk(n[2])
+    walk(node)
+    return {k: z3.Or(*v) for k, v in preds.items()}
